@@ -294,6 +294,62 @@ where
                 }
                 Err(e) => ctx.violation(&format!("{k}:dddmp-large:{mode}:own-file-rejected"), format!("{label} (fresh manager): {e}")),
             }
+            // binary mode: a 7-bit encoded number extended by ten more leading groups, the first of
+            // them non-zero, denotes a value >= 2^64. Such a file is malformed ("integer too large");
+            // if the importer drops the excess bits it reads the ORIGINAL number and returns the
+            // original functions for a file that says something else.
+            if how == 1 {
+                if let Some(off) = bytes.windows(7).position(|w| w == b".nodes\n").map(|p| p + 7) {
+                    let mut wrapped = 0u64;
+                    for _ in 0..40 {
+                        let p = off + rng.usize(bytes.len() - off);
+                        let mut mutant = bytes.clone();
+                        mutant.splice(p..p, [0x03u8, 1, 1, 1, 1, 1, 1, 1, 1, 1]);
+                        ctx.eval();
+                        if let Ok(Ok(back)) = crate::ctx::catch(|| K::import(&mref, &mutant)) {
+                            if back.len() == fs.len() && back.iter().zip(&fs).all(|(b, (f, _))| b == f) {
+                                wrapped += 1;
+                                if wrapped == 1 {
+                                    ctx.violation(
+                                        &format!("{k}:dddmp-large:binary:integer-beyond-64-bits-accepted"),
+                                        format!("{label}: 10 continuation bytes (03 01 01 01 01 01 01 01 01 01) inserted at offset {p} of the node section ({} bytes): import succeeds and returns the functions of the unmodified file", bytes.len() - off),
+                                    );
+                                }
+                            }
+                        }
+                        ctx.count("overlong_number_mutants", 1);
+                    }
+                }
+            }
+            // a LARGER manager: the file's variables are mapped onto the last variables (levels beyond
+            // the file's own variable count), as when several files are loaded into one manager
+            if n <= 13 {
+                let extra = rng.range(1, 3) as u32;
+                let m3 = K::new_manager(1 << 20, 1 << 12, 1);
+                m3.with_manager_exclusive(|m| m.add_vars(n + extra));
+                let order3: Vec<u32> = (0..extra).chain(order.iter().map(|&v| v + extra)).collect();
+                set_order(&m3, &order3);
+                ctx.eval();
+                let r = crate::ctx::catch(|| K::import_shifted(&m3, &bytes, extra));
+                match r {
+                    Err(msg) => ctx.violation(&format!("{k}:dddmp-large:{mode}:panic-importing-into-larger-manager"), format!("{label}, {extra} extra variables in front: {msg}")),
+                    Ok(Err(e)) => ctx.violation(&format!("{k}:dddmp-large:{mode}:own-file-rejected"), format!("{label} (larger manager, {extra} extra variables in front): {e}")),
+                    Ok(Ok(back)) => {
+                        let low = (1usize << extra) - 1;
+                        for (i, (b, (_, t))) in back.iter().zip(&fs).enumerate() {
+                            let want = Tt::from_fn(n + extra, |a| (K::SEM != Sem::ZeroSup || a & low == 0) && t.get(a >> extra));
+                            let bt = interp_tt::<K>(b);
+                            if bt != want {
+                                ctx.violation(
+                                    &format!("{k}:dddmp-large:{mode}:imported-function-differs"),
+                                    format!("{label} (larger manager, variables shifted by {extra}): root {i}: {} of {} assignments differ", bt.xor(&want).count_ones(), want.size()),
+                                );
+                            }
+                        }
+                        ctx.count("imports_into_larger_manager", 1);
+                    }
+                }
+            }
         }
     }
 }
